@@ -791,6 +791,69 @@ fn dev_site(d: &Dev) -> &'static str {
 
 // ------------------------------------------------------------------------------------------------
 
+/// The three public ways of declaring a table (`add_lookup_table_from_pairs` / `_from_table` / `_from_fn`)
+/// must give the same circuit: same index for an already stored table, same circuit digest and common
+/// data, and the honest proof carries table[input].
+fn table_definition_routes(ctx: &Ctx, cfg: &CircuitConfig) {
+    use plonky2::iop::witness::{PartialWitness, WitnessWrite};
+    use plonky2::plonk::circuit_builder::CircuitBuilder;
+    fn f_sq(x: u16) -> u16 {
+        ((x as u32 * x as u32 + 3) % 251) as u16
+    }
+    fn f_rev(x: u16) -> u16 {
+        200 - x
+    }
+    let l = cfg.num_routed_wires / 3;
+    for (ti, (f, n)) in [(f_sq as fn(u16) -> u16, 5usize), (f_rev as fn(u16) -> u16, l), (f_sq as fn(u16) -> u16, l + 1)].into_iter().enumerate() {
+        let inputs: Vec<u16> = (0..n as u16).map(|i| i * 3 + 1).collect();
+        let outs: Vec<u16> = inputs.iter().map(|&x| f(x)).collect();
+        let pairs: Vec<(u16, u16)> = inputs.iter().copied().zip(outs.iter().copied()).collect();
+        let case = format!("table-routes t{ti} n{n}");
+        ctx.case("table-definition-routes", &case, || {
+            let mut digests = Vec::new();
+            for route in 0..3 {
+                let mut b = CircuitBuilder::<F, D>::new(cfg.clone());
+                let declare = |b: &mut CircuitBuilder<F, D>, r: usize| match r {
+                    0 => b.add_lookup_table_from_pairs(std::sync::Arc::new(pairs.clone())),
+                    1 => b.add_lookup_table_from_table(&inputs, &outs),
+                    _ => b.add_lookup_table_from_fn(f, &inputs),
+                };
+                let id = declare(&mut b, route);
+                // the same table declared again through every route is the stored one
+                for r2 in 0..3 {
+                    let again = declare(&mut b, r2);
+                    if again != id {
+                        return Err(format!("route {r2} registered an already stored table under a new index ({again} != {id})"));
+                    }
+                }
+                let xs: Vec<_> = (0..3).map(|_| b.add_virtual_target()).collect();
+                let ys: Vec<_> = xs.iter().map(|&x| b.add_lookup_from_index(x, id)).collect();
+                for &y in &ys {
+                    b.register_public_input(y);
+                }
+                let data = b.build::<PC>();
+                let mut pw = PartialWitness::new();
+                let picks = [0usize, n / 2, n - 1];
+                for (x, &k) in xs.iter().zip(&picks) {
+                    pw.set_target(*x, fe(inputs[k] as u64)).map_err(|e| e.to_string())?;
+                }
+                let proof = data.prove(pw).map_err(|e| format!("route {route}: prove failed: {e}"))?;
+                let want: Vec<u64> = picks.iter().map(|&k| outs[k] as u64).collect();
+                let got: Vec<u64> = proof.public_inputs.iter().map(|x| plonky2::field::types::PrimeField64::to_canonical_u64(x)).collect();
+                if got != want {
+                    return Err(format!("route {route}: outputs {got:?} != table values {want:?}"));
+                }
+                data.verify(proof).map_err(|e| format!("route {route}: verify failed: {e}"))?;
+                digests.push((data.verifier_only.circuit_digest, data.common.clone()));
+            }
+            if digests.iter().any(|d| d.0 != digests[0].0 || d.1 != digests[0].1) {
+                return Err("the three declaration routes give different circuits (digest / common data)".into());
+            }
+            Ok("table-definition-routes:same-circuit".into())
+        });
+    }
+}
+
 pub fn run(ctx: &Ctx) -> i32 {
     let thorough = ctx.tier.thorough();
     let cfgs = configs(thorough);
@@ -963,6 +1026,7 @@ pub fn run(ctx: &Ctx) -> i32 {
             ctx.machinery_error("the negative half is vacuous: no proof was emitted-and-rejected, or none accepted");
         }
     }
+    table_definition_routes(ctx, &cfgs[0].1);
     let widths: Vec<String> = cfgs
         .iter()
         .map(|(n, c)| {
